@@ -326,6 +326,7 @@ func (css *Consensus) Shutdown(ctx context.Context) error {
 	}
 
 	logger.Info("stopping Consensus component")
+	verifHook("shutdown", "peer", css.host.ID())
 
 	css.cancel()
 
@@ -406,6 +407,8 @@ func (css *Consensus) Distrust(ctx context.Context, pid peer.ID) error {
 func (css *Consensus) LogPin(ctx context.Context, pin *api.Pin) error {
 	ctx, span := trace.StartSpan(ctx, "consensus/LogPin")
 	defer span.End()
+	verifHook("logcall", "peer", css.host.ID(), "op", "pin", "cid", pin.Cid)
+	defer verifHook("logret", "peer", css.host.ID(), "op", "pin", "cid", pin.Cid)
 
 	if css.config.batchingEnabled() {
 		select {
@@ -427,6 +430,8 @@ func (css *Consensus) LogPin(ctx context.Context, pin *api.Pin) error {
 func (css *Consensus) LogUnpin(ctx context.Context, pin *api.Pin) error {
 	ctx, span := trace.StartSpan(ctx, "consensus/LogUnpin")
 	defer span.End()
+	verifHook("logcall", "peer", css.host.ID(), "op", "unpin", "cid", pin.Cid)
+	defer verifHook("logret", "peer", css.host.ID(), "op", "unpin", "cid", pin.Cid)
 
 	if css.config.batchingEnabled() {
 		select {
@@ -449,6 +454,7 @@ func (css *Consensus) batchWorker() {
 	maxSize := css.config.Batching.MaxBatchSize
 	maxAge := css.config.Batching.MaxBatchAge
 	batchCurSize := 0
+	verifHook("worker", "peer", css.host.ID(), "maxsize", maxSize, "maxage_ms", int(maxAge/time.Millisecond), "maxq", cap(css.batchItemCh))
 	// Create the timer but stop it. It will reset when
 	// items start arriving.
 	batchTimer := time.NewTimer(maxAge)
